@@ -6,24 +6,48 @@
    Liveness is stated as safety of STUCK configurations ([stuck], proof/PoolProofB.v): no goroutine can
    execute a statement, no armed idle timer is left to fire, no user task is still running.
 
-   STATUS of this file (it is extended as the invariant proofs in PoolProofB2.v ... close):
-     proved  : shutdown_hang_refuted (pinned code, i_fixb = false), the non-vacuity Example.
-     pending : (full statements, to be proved for every P with pvalid P, i_fixa P = i_fixb P = true)
+   STATUS (honest account; this file is extended as the invariant layers in proof/PoolProofB*.v close)
 
-       done_not_early :
-         forall P evs c, pvalid P -> i_fixa P = true -> i_fixb P = true ->
-           exec pstep_cfg (pinit P) evs = Some c -> g_grace (c_gh c) = true ->
-           s_q (c_sh c) = [] /\ (no worker holds a received task) /\
-           (forall i, In i (g_acc (c_gh c)) -> In i (g_done (c_gh c)))
-         (g_grace is set by exactly the two statements `b.interruptCtxCancel()` that follow a successful
-          CAS closing -> stopped, i.e. by the graceful path only)
+   PROVED here
+     shutdown_hang_refuted                 the pinned code (i_fixb = false) hangs: witness schedule
+     shutdown_completes_after_timer_exit   Example: on the code as it is the same schedule completes
+     pool_lock_discipline_B                b.mutex (write/read), group.mu (write/read) and the state word at
+                                           `locked` count exactly the threads inside their critical sections
+     pool_mutual_exclusion_B               hence never two goroutines inside b.mutex's / group.mu's write
+                                           section, never two holders of the state word
+     graceful_cancel_only_after_shutdown   whenever the graceful path has cancelled the context: state =
+                                           stopped, context cancelled, a Shutdown had succeeded, and NO
+                                           ShutdownNow ever succeeded
+     closed_flag_accounting                closed + (Shutdown at its close) + (ShutdownNow at its close) =
+                                           g_shut + g_now; the two are exclusive; closed => closing/stopped;
+                                           cancelled => stopped
+   These four hold for EVERY parameter record (no validity hypothesis) and for all pinned / repaired
+   variants; they are steps towards the two theorems below, NOT those theorems.
 
-       shutdown_completes :
-         forall P evs c, pvalid P -> i_fixa P = true -> i_fixb P = true ->
-           exec pstep_cfg (pinit P) evs = Some c -> g_shut (c_gh c) = true -> stuck c ->
-           s_state (c_sh c) = SStopped /\ s_ictx (c_sh c) = true /\
-           (forall i, In i (g_acc (c_gh c)) -> In i (g_done (c_gh c))) *)
-From Ekit Require Import Common Conc PoolModel PoolExamples PoolProofB.
+   NOT PROVED YET (full statements; P with pvalid P, i_fixa P = i_fixb P = i_fixc P = true)
+
+     done_not_early :
+       forall P evs c, exec pstep_cfg (pinit P) evs = Some c -> g_grace (c_gh c) = true ->
+         s_q (c_sh c) = [] /\ (no worker has a received task) /\
+         (forall i, In i (g_acc (c_gh c)) -> In i (g_done (c_gh c)))
+       missing invariants: (K) while the pool is live at least initGo counted workers are not members of
+       timeoutGroup, or the queue is closed and empty; (Q) a goroutine that read totalGo = 0 after its own
+       decrement implies totalGo = 0 now.  With them: at the successful CAS closing -> stopped totalGo = 0,
+       so no counted worker (none holds a task) and by K the queue is closed and empty; acc <= done then
+       follows from agent-pool's ledger (PoolProof6.accepted_in_ledger_lemma) and
+       graceful_cancel_only_after_shutdown (nothing was ever returned by ShutdownNow).
+
+     shutdown_completes :
+       forall P evs c, exec pstep_cfg (pinit P) evs = Some c -> g_shut (c_gh c) = true -> stuck c ->
+         s_state (c_sh c) = SStopped /\ s_ictx (c_sh c) = true /\
+         (forall i, In i (g_acc (c_gh c)) -> In i (g_done (c_gh c)))
+       missing: K, Q as above; (J) in state closing with totalGo = 0 some goroutine is between its
+       decrement and the CAS closing -> stopped; and the analysis of stuck configurations (every thread of
+       a stuck configuration is a parked worker without an armed timer), which needs, besides the lock
+       discipline proved here: "at `<-idleTimer.C` after a failed Stop the timer has fired" (proved in
+       scratch, waits for the goroutine-id layer), wrapper depth >= 1 (PoolProof7.Inv4), "range b.queue
+       in ShutdownNow runs on a closed queue" (proved: closed_flag_accounting's layer). *)
+From Ekit Require Import Common Conc PoolModel PoolExamples PoolProofB PoolProofB0 PoolProofB1 PoolProofB2d PoolProofBz.
 
 (* On the code BEFORE the fix: commit 11c4414 (i_fixb = false): a schedule after which Shutdown has
    succeeded and returned, nothing can run any more, every accepted task is done - and the pool is in
@@ -50,3 +74,42 @@ Example shutdown_completes_after_timer_exit :
     g_acc (c_gh c) = [0; 1]%nat /\ g_done (c_gh c) = [0; 1]%nat /\
     In (PFire 100%nat) evs.
 Proof. exact shutdown_completes_example_lemma. Qed.
+
+(* ---------- steps towards the positive theorems (every parameter record, every variant) ---------- *)
+
+(* the three lock words say exactly how many threads are inside the corresponding critical sections
+   (g_hbw / g_hbr: b.mutex write / read sections; g_hgw / g_hgr: timeoutGroup.mu; g_hsl: between a
+   successful CAS to `locked` and the CAS back, in Submit and in Start) *)
+Theorem pool_lock_discipline_B : forall P evs c, exec pstep_cfg (pinit P) evs = Some c ->
+  Z.b2z (s_bw (c_sh c)) = tsum (pcf g_hbw) (c_thr c) /\
+  s_br (c_sh c) = tsum (pcf g_hbr) (c_thr c) /\
+  Z.b2z (s_gw (c_sh c)) = tsum (pcf g_hgw) (c_thr c) /\
+  s_gr (c_sh c) = tsum (pcf g_hgr) (c_thr c) /\
+  Z.b2z (pstate_eqb (s_state (c_sh c)) SLocked) = tsum (pcf g_hsl) (c_thr c).
+Proof. exact lock_discipline_lemma. Qed.
+Print Assumptions pool_lock_discipline_B.
+
+Theorem pool_mutual_exclusion_B : forall P evs c t1 t2 x1 x2, exec pstep_cfg (pinit P) evs = Some c ->
+  lookup t1 (c_thr c) = Some x1 -> lookup t2 (c_thr c) = Some x2 ->
+  (g_hbw (pc x1) = 1 -> g_hbw (pc x2) = 1 -> t1 = t2) /\
+  (g_hgw (pc x1) = 1 -> g_hgw (pc x2) = 1 -> t1 = t2) /\
+  (g_hsl (pc x1) = 1 -> g_hsl (pc x2) = 1 -> t1 = t2).
+Proof. exact mutual_exclusion_lemma. Qed.
+Print Assumptions pool_mutual_exclusion_B.
+
+(* g_grace is set by exactly the two statements `b.interruptCtxCancel()` that follow a successful CAS
+   closing -> stopped in a worker (closed-queue exit and, since the fix, idle-timer exit) *)
+Theorem graceful_cancel_only_after_shutdown : forall P evs c, exec pstep_cfg (pinit P) evs = Some c ->
+  g_grace (c_gh c) = true ->
+  s_state (c_sh c) = SStopped /\ s_ictx (c_sh c) = true /\ g_shut (c_gh c) = true /\ g_now (c_gh c) = false.
+Proof. exact graceful_cancel_only_after_shutdown_lemma. Qed.
+Print Assumptions graceful_cancel_only_after_shutdown.
+
+Theorem closed_flag_accounting : forall P evs c, exec pstep_cfg (pinit P) evs = Some c ->
+  bz (s_closed (c_sh c)) + tsum (pcf g_shclose) (c_thr c) + tsum (pcf g_snclose) (c_thr c) =
+    bz (g_shut (c_gh c)) + bz (g_now (c_gh c)) /\
+  (g_shut (c_gh c) = true -> g_now (c_gh c) = true -> False) /\
+  (s_closed (c_sh c) = true -> s_state (c_sh c) = SClosing \/ s_state (c_sh c) = SStopped) /\
+  (s_ictx (c_sh c) = true -> s_state (c_sh c) = SStopped).
+Proof. exact closed_flag_accounting_lemma. Qed.
+Print Assumptions closed_flag_accounting.
